@@ -35,17 +35,19 @@ Slice(v, p) ==
                 THEN p.u \in g.present /\ KidOf(g, p.u, p.a) = p.t ELSE TRUE
              /\ ev' = [op |-> "slice", v |-> v, p |-> p, ret |-> SliceOp(g, v, P)]
           /\ g' = g
-\* every edge of every vertex reachable from v, as <<from, label, to>>
+\* inspect(v): every edge of every vertex reachable from v, as <<from, label, to>>, each exactly once
+AllEdgesP(f, t, a) == TRUE
 InspectEdges(v) ==
-  LET All(f, t, a) == TRUE
-      R == Reach(g, v, All) IN
-  {<<u, g.edges[u][i][1], g.edges[u][i][2]>> : u \in R, i \in 1..MaxN} \cap
-  {<<u, g.edges[u][i][1], g.edges[u][i][2]>> : u \in {w \in R : Len(g.edges[w]) > 0}, i \in 1..1}
-Inspect(v) == FALSE
+  LET R == Reach(g, v, AllEdgesP) IN
+  UNION {{<<u, g.edges[u][i][1], g.edges[u][i][2]>> : i \in 1..Len(g.edges[u])} : u \in R}
+Inspect(v) == /\ "inspect" \in Extra
+              /\ v \in g.present /\ Reach(g, v, AllEdgesP) \subseteq g.present
+              /\ g' = g /\ ev' = [op |-> "inspect", v |-> v, ret |-> InspectEdges(v)]
 
 NextX == \/ Next
          \/ Clone \/ Reload
          \/ \E v \in Ids, p \in Preds : Slice(v, p)
+         \/ \E v \in Ids : Inspect(v)
 
 SpecX == Init /\ [][NextX]_vars
 
